@@ -65,14 +65,16 @@ def _L():
 
 def _sig(case, iface, what):
     L = _L()
+    # LinGaussThr cases carry the value of cuqi.config.MIN_DIM_SPARSE, the number of replications and the data layout
+    thr = ("/thr=%s/rep=%d/lay=%s" % ("default" if case["thr"] == 75 else case["thr"], case.get("rep", 1), case.get("lay", "f64c"))) if "thr" in case else ""
     if case["kind"] == "rto":
-        return "rto/%s/%s/nl=%d/n=%d/m=%s/noise=%s/prior=%s/mean=%s/model=%s/A=%d" % (
+        return "rto/%s/%s/nl=%d/n=%d/m=%s/noise=%s/prior=%s/mean=%s/model=%s/A=%d%s" % (
             iface, what, case["nl"], case["n"], "+".join(str(v) for v in case["m"]),
-            "+".join(L.form_tag(s) for s in case["noise"]), L.form_tag(case["prior"]), case["mk"], case["mdl"], case["av"])
+            "+".join(L.form_tag(s) for s in case["noise"]), L.form_tag(case["prior"]), case["mk"], case["mdl"], case["av"], thr)
     s = case["scale_q"]
-    return "ugla/%s/%s/loc=%s/scale=%s/n=%d/m=%d/noise=%s/beta=%d_%d/xk=%d" % (
+    return "ugla/%s/%s/loc=%s/scale=%s/n=%d/m=%d/noise=%s/beta=%d_%d/xk=%d%s" % (
         iface, what, case["lk"], ("%d" % s[0]) if s[1] == 1 else "%d_%d" % tuple(s), case["n"], case["m"],
-        L.form_tag(case["noise"]), case["beta_q"][0], case["beta_q"][1], case["u"])
+        L.form_tag(case["noise"]), case["beta_q"][0], case["beta_q"][1], case["u"], thr)
 
 
 # --------------------------------------------------------------------------------------------------------------
@@ -189,9 +191,11 @@ def check_rto(ctx, case):
     pr = case["prior"]
     if case["nl"] == 1 and pr["kind"] not in ("gmrf", "joint"):
         # 5-tuple input form (data, model, L_sqrtprec, P_mean, P_sqrtprec) of the legacy interface, matrix or LinearModel
-        A = L.inp(case["A"][0])
+        lay = case.get("lay")
+        A = L.layout(L.inp(case["A"][0]), lay)
         mdl = A if case["mdl"] == "matrix" else L.linear_model(A, "func")
-        tup = (L.inp(case["y"][0]), mdl, L.inp(case["Ln"][0]), L.inp(pr["blocks"][0]["mu"]), L.inp(pr["blocks"][0]["L"]))
+        tup = (L.layout(L.inp(case["y"][0]), lay), mdl, L.layout(L.inp(case["Ln"][0]), lay, param=True),
+               L.layout(L.inp(pr["blocks"][0]["mu"]), lay), L.layout(L.inp(pr["blocks"][0]["L"]), lay, param=True))
         ifaces.append(("legacy5", lambda x0: cuqi.sampler.LinearRTO(tup, x0=np.array(x0, dtype=float), maxit=MAXIT, tol=TOL), _legacy_draw))
     for iface, make, mkdraw in ifaces:
         offsets = []
@@ -705,14 +709,16 @@ def _deviations(ctx, names):
 
 
 def run(ctx):
-    from cuqiverif import c06_seq, c06_mut, c06_proc
+    from cuqiverif import c06_seq, c06_mut, c06_proc, c06_thr
+    thr_jobs = c06_thr.start_tlc(ctx)          # LinGaussThr (both sides of cuqi.config.MIN_DIM_SPARSE, replications across 75, data layouts), in background threads
     seq_jobs = c06_seq.start_tlc(ctx)          # LinGaussSeq (pairs of configurations, one sampler object), in background threads
     hard_jobs = _start_hard_tlc(ctx)           # LinGauss part hard (ill-conditioned instances), in background threads
     proc_jobs = c06_proc.start_tlc(ctx)        # LinGaussProc (process history) + every behaviour in its own fresh process, in background threads
     mut_jobs = c06_mut.start_tlc(ctx)          # LinGaussMut (nested objects of ONE target updated through public setters), in background threads
     try:
-        _run(ctx, seq_jobs, hard_jobs, mut_jobs, proc_jobs)
+        _run(ctx, seq_jobs, hard_jobs, mut_jobs, proc_jobs, thr_jobs)
     except BaseException:
+        c06_thr.discard_tlc(thr_jobs)
         c06_seq.discard_tlc(seq_jobs)          # (no-op for runs already collected)
         _discard_hard_tlc(hard_jobs)
         c06_mut.discard_tlc(mut_jobs)
@@ -720,9 +726,9 @@ def run(ctx):
         raise
 
 
-def _run(ctx, seq_jobs, hard_jobs, mut_jobs, proc_jobs):
+def _run(ctx, seq_jobs, hard_jobs, mut_jobs, proc_jobs, thr_jobs):
     from cuqiverif.core import MachineryError
-    from cuqiverif import tlc, c06_seq, c06_mut, c06_proc
+    from cuqiverif import tlc, c06_seq, c06_mut, c06_proc, c06_thr
     res = ctx.tlc("LinGauss", cfg="LinGauss.rto.%s.cfg" % ctx.tier, workers=16, timeout=1500)
     ctx.model_must_hold(res, "LinGauss.rto")
     rto_cases = res.cases
@@ -745,6 +751,7 @@ def _run(ctx, seq_jobs, hard_jobs, mut_jobs, proc_jobs):
     for key in sorted(groups):
         check_ugla(ctx, sorted(groups[key], key=lambda c: c["wv"]))
     ctx.traces = len(rto_cases) + len(groups)
+    c06_thr.run(ctx, thr_jobs)                  # the same replay on the sparse side of the dense / sparse switch, across the real threshold, other data layouts
     c06_seq.run(ctx, seq_jobs)                  # sequences on ONE sampler object (target switched, maxit / tol / beta / x0 reassigned)
     c06_mut.run(ctx, mut_jobs)                  # ONE target object updated through the setters of its nested objects, then reinitialize() / new legacy sampler
     c06_proc.run(ctx, proc_jobs)                # several posteriors of different configuration in ONE fresh process, every order / interleaving
@@ -786,6 +793,9 @@ def replay(ctx, case):
     if case.get("kind") == "proc":
         from cuqiverif import c06_proc
         return c06_proc.replay(ctx, case)
+    if case.get("kind") in ("rtothr", "uglathr") or (case.get("kind") in ("rto", "ugla") and "thr" in case):
+        from cuqiverif import c06_thr
+        return c06_thr.replay(ctx, case)
     if case.get("kind") == "rto":
         return check_rto(ctx, case)
     if case.get("kind") == "hard":
